@@ -21,6 +21,7 @@ import (
 
 // FilesCfg configures the segment-file life-cycle scenario (C12).
 type FilesCfg struct {
+	Reopen    bool           `json:"reopen,omitempty"`   // the first half of every writer's batches, then Close and reopen, then the rest
 	SlowDst   int            `json:"slow_dst,omitempty"` // steps per file of a copy's destination directory
 	Index     model.IndexCfg `json:"index"`
 	Sched     sched.Config   `json:"sched"`
@@ -44,6 +45,7 @@ func genFiles(c *core.Ctx) (FilesCfg, FilesWL) {
 	cfg.Index.SamplingMS = []int{0, 0, 10, 1000}[g.Intn(4)]
 	cfg.Sched = genSchedCfg(g, true)
 	cfg.SlowDst = []int{0, 5, 40, 150}[g.Intn(4)]
+	cfg.Reopen = g.Intn(10) < 3
 	wl := FilesWL{}
 	nw := 1 + g.Intn(3)
 	for w := 0; w < nw; w++ {
@@ -181,10 +183,58 @@ func filesScenario(c *core.Ctx) {
 		}
 	})
 	nw := len(wl.Writers)
+	firstHalf := func(w int) int {
+		if cfg.Reopen {
+			return len(wl.Writers[w]) / 2
+		}
+		return 0
+	}
+	if cfg.Reopen {
+		// phase one: the first half of the batches, no readers or copies; then Close and reopen: the snapshots
+		// inherited from the first session must be purged like any others
+		for w := range wl.Writers {
+			w := w
+			s.Spawn(fmt.Sprintf("w%d", w), func() {
+				for k := 0; k < firstHalf(w); k++ {
+					mb := wl.Writers[w][k]
+					mb.Ints = append(append([]model.IntOp(nil), mb.Ints...), model.IntOp{Key: model.MarkerKey(w), Val: strconv.Itoa(k + 1)})
+					bb, err := BuildBatch(idx, mb, false)
+					if err == nil {
+						err = idx.Batch(bb)
+					}
+					if err != nil {
+						c.Violate("batch-error", nil, s.Steps, "writer %d batch %d: %v", w, k+1, err)
+						return
+					}
+				}
+			})
+		}
+		if !env.RunClients("first session") {
+			return
+		}
+		s.Spawn("reopen", func() {
+			if err := idx.Close(); err != nil {
+				c.Violate("close-error", nil, s.Steps, "Close: %v", err)
+				return
+			}
+			var err error
+			if idx, err = icfg.Open(path); err != nil {
+				c.Violate("reopen-error", nil, s.Steps, "reopen: %v", err)
+				idx = nil
+			}
+			c.Probe("reopen")
+		})
+		if !env.RunClients("reopen") || idx == nil {
+			return
+		}
+	}
 	for w := range wl.Writers {
 		w := w
 		s.Spawn(fmt.Sprintf("w%d", w), func() {
 			for k, mb := range wl.Writers[w] {
+				if k < firstHalf(w) {
+					continue
+				}
 				mb.Ints = append(append([]model.IntOp(nil), mb.Ints...), model.IntOp{Key: model.MarkerKey(w), Val: strconv.Itoa(k + 1)})
 				bb, err := BuildBatch(idx, mb, false)
 				if err != nil {
